@@ -24,14 +24,46 @@ func BuildMultiCaller() []byte {
 	return a.Bytes()
 }
 
-// BuildClock: storage[0] := TIMESTAMP, storage[1] := NUMBER, LOG0(timestamp word): a contract whose effects show
-// any disagreement about block time / height.
+// BuildClock: storage[0] := TIMESTAMP, storage[1] := NUMBER, and every other input the block context offers —
+// COINBASE, DIFFICULTY/PREVRANDAO, GASLIMIT, CHAINID, BASEFEE, GASPRICE, ORIGIN, BLOCKHASH of the three previous blocks and
+// of the block 200 back — written to memory, emitted as one LOG0 and stored as a hash in storage[2]: a contract whose
+// effects show any disagreement about the block being executed.
 func BuildClock() []byte {
+	const (
+		opKECCAK256 byte = 0x20
+		opORIGIN    byte = 0x32
+		opGASPRICE  byte = 0x3a
+		opBLOCKHASH byte = 0x40
+		opCOINBASE  byte = 0x41
+		opDIFFIC    byte = 0x44
+		opGASLIMIT  byte = 0x45
+		opCHAINID   byte = 0x46
+		opBASEFEE   byte = 0x48
+		opSUB       byte = 0x03
+	)
 	a := NewAsm()
 	a.Op(opTIMESTAMP).PushU(0).Op(opSSTORE)
 	a.Op(opNUMBER).PushU(1).Op(opSSTORE)
-	a.Op(opTIMESTAMP).PushU(0).Op(OpMSTORE)
-	a.PushU(32).PushU(0).Op(opLOG0)
+	off := uint64(0)
+	put := func(ops ...byte) {
+		a.Op(ops...).PushU(off).Op(OpMSTORE)
+		off += 32
+	}
+	put(opTIMESTAMP)
+	put(opNUMBER)
+	put(opCOINBASE)
+	put(opDIFFIC)
+	put(opGASLIMIT)
+	put(opCHAINID)
+	put(opBASEFEE)
+	put(opGASPRICE)
+	put(opORIGIN)
+	for _, back := range []uint64{1, 2, 3, 200} {
+		a.PushU(back).Op(opNUMBER, opSUB, opBLOCKHASH).PushU(off).Op(OpMSTORE) // BLOCKHASH(NUMBER - back)
+		off += 32
+	}
+	a.PushU(off).PushU(0).Op(opLOG0)
+	a.PushU(off).PushU(0).Op(opKECCAK256).PushU(2).Op(opSSTORE)
 	a.Op(OpSTOP)
 	return a.Bytes()
 }
